@@ -368,7 +368,7 @@ func (cc *Session) Run() {
 			return
 		}
 
-		if cmd == mysql.ComQuit || cc.shouldClearKsAndCloseSession(cc.executor.nsChangeIndexOld) {
+		if cmd == mysql.ComQuit || cc.shouldClearKsAndCloseSession(cc.executor.nsChangeIndexOld) || cc.executor.txConnLost() {
 			cc.Close()
 		}
 	}
